@@ -598,6 +598,7 @@ def verify_function(eng, c, max_paths=3000):
             if a.kwarg:
                 fr.locals[a.kwarg.arg] = PyVal("dictlit", items=[])
         entry_locals = dict(fr.locals)
+        eng.observables = collect_observables(eng, entry_locals)
         fr.old_locals = entry_locals
         pre_heap = {}
         fr.old_heap = pre_heap
@@ -635,6 +636,62 @@ def verify_function(eng, c, max_paths=3000):
         res.paths += 1
         res.obligations += p.obligations
     return res
+
+
+def collect_observables(eng, entry_locals, depth=3, limit=160):
+    """named terms of the PRE state (parameters and the scalar fields reachable from them) whose model values
+    go into the replay file so that real objects can be rebuilt natively"""
+    out = []
+    seen = set()
+
+    def scalar(path, v):
+        if isinstance(v, PyVal):
+            return
+        s = v.sort
+        if s in (REAL, INT, BOOL, ATOM):
+            out.append((path, s.name, [za(v.t) if s == ATOM else (zb(v.t) if s == BOOL else zr(v.t))]))
+        elif isinstance(s, Opt):
+            isn, inner = v.t
+            out.append((path + "?none", "Bool", [zb(isn)]))
+            visit(path, inner, 0)
+        elif isinstance(s, Tup):
+            for i, x in enumerate(v.t):
+                visit("%s[%d]" % (path, i), x, 0)
+
+    def visit(path, v, d):
+        if len(out) > limit or isinstance(v, PyVal):
+            return
+        s = v.sort
+        if isinstance(s, Ref):
+            out.append((path + "@ref", "Ref:" + s.cls, [zr(v.t)]))
+            if d >= depth:
+                return
+            for fname, (owner, fs) in sorted(eng.spec.all_fields(eng.repo, s.cls).items()):
+                try:
+                    fv = eng.read_field(v.t, owner, fname, fs, heap=eng.path.heap, assume_wf=False)
+                except Exception:
+                    continue
+                visit("%s.%s" % (path, fname), fv, d + 1)
+        elif isinstance(s, ListOf):
+            n = eng.list_len(v.t, s.elem)
+            out.append((path + "@len", "Int", [n]))
+            if d >= depth:
+                return
+            for i in range(3):
+                visit("%s[%d]" % (path, i), eng.list_get(v.t, s.elem, z3.IntVal(i), heap=eng.path.heap), d + 1)
+        elif isinstance(s, MapOf):
+            return
+        else:
+            scalar(path, v)
+
+    saved_bd = eng.bound_depth
+    eng.bound_depth = 1  # no purification while collecting
+    try:
+        for name, v in entry_locals.items():
+            visit(name, v, 0)
+    finally:
+        eng.bound_depth = saved_bd
+    return out
 
 
 def pre_key(k):
